@@ -4,7 +4,7 @@
    proofs are in Proofs/EvalTotal.v, ExecProofs.v, IncludeProofs.v, EvalGen.v. *)
 From Coq Require Import List NArith ZArith Bool.
 From Falco Require Import Base.Res Base.Bytes Gen.EvalConst Model.Float Model.Acl Model.Val Model.Assign Model.Oper
-  Model.AssignOld Model.Exec Model.CallTree Model.Builtins Model.EvalInclude Proofs.EvalTotal Proofs.CallTreeProofs Proofs.BuiltinProofs Proofs.ExecProofs Proofs.IncludeProofs Proofs.EvalGen.
+  Model.AssignOld Model.Exec Model.CallTree Model.Builtins Model.EvalInclude Proofs.EvalTotal Proofs.CallTreeProofs Proofs.BuiltinProofs Proofs.EvalLaws Proofs.EvalOverflow Proofs.ExecProofs Proofs.IncludeProofs Proofs.EvalGen.
 Import ListNotations.
 
 (* ---------------------------------------------------------------- operators: a value or an error, for ALL operands *)
@@ -108,6 +108,21 @@ Proof. exact mutual_include_err. Qed.
 Theorem C08_include_old_refuted : forall fuel, resolve_old fuel [[IInclude 0]] [IInclude 0] = OutOfFuel.
 Proof. exact resolve_old_diverges. Qed.
 
+(* ---------------------------------------------------------------- integer overflow *)
+
+(* "integer overflow ... yields a value or an error": it yields a VALUE - INTEGER += -= *= whose mathematical result does
+   not fit int64 give that result modulo 2^64 in the int64 range (Go's wrapping arithmetic), no error, flags unchanged.
+   (C07 speaks about results within range only; no check flags the wrap.) *)
+Theorem C08_integer_overflow_yields_value : forall parse_ip a n ni pi b bn lit,
+  assign parse_ip OpAdd (VInt a n ni pi) (rint b bn lit) = AOk (VInt (wrap64 (a + b)) n ni pi) /\
+  assign parse_ip OpSub (VInt a n ni pi) (rint b bn lit) = AOk (VInt (wrap64 (a - b)) n ni pi) /\
+  assign parse_ip OpMul (VInt a n ni pi) (rint b bn lit) = AOk (VInt (wrap64 (a * b)) n ni pi) /\
+  in64 (wrap64 (a + b)) = true /\ in64 (wrap64 (a - b)) = true /\ in64 (wrap64 (a * b)) = true.
+Proof. exact integer_overflow_yields_value. Qed.
+
+Theorem C08_wrap64_congruent : forall z, ((wrap64 z - z) mod 2 ^ 64 = 0)%Z.
+Proof. exact wrap64_congruent. Qed.
+
 (* ---------------------------------------------------------------- built-ins driven by a count argument *)
 
 (* std.strrep: for every count (negative, huge) a value or an error; a value has max(count,0) * |s| bytes and never
@@ -157,3 +172,5 @@ Print Assumptions C08_strrep_total.
 Print Assumptions C08_strpad_bound.
 Print Assumptions C08_randomstr_bound.
 Print Assumptions C08_replaceall_unbounded_refuted.
+Print Assumptions C08_integer_overflow_yields_value.
+Print Assumptions C08_wrap64_congruent.
